@@ -563,7 +563,9 @@ def reproject_part(R: Run, mods):
             A = Affine(-r, 0, x0 + r * nx, 0, r, y1 - r * ny)  # mirrored
         return GeoBox((ny, nx), A, crs)
 
-    stale = {"crs": "EPSG:9999", "crs_wkt": "stale", "grid_mapping": "old_ref", "gcps": "stale", "epsg": 1}
+    # attributes as file loaders leave them; `grid_mapping` names the existing CRS coordinate (a dangling
+    # name would make the *source* un-registered once the encoding is lost, which is not this property)
+    stale = {"crs": "EPSG:9999", "crs_wkt": "stale", "grid_mapping": "spatial_ref", "gcps": "stale", "epsg": 1}
     for it in range(R.pick(40, 400)):
         scrs = rng.choice(["EPSG:4326", "EPSG:32633", "EPSG:3857", "EPSG:3577"])
         src = src_box(scrs)
@@ -626,7 +628,7 @@ def reproject_part(R: Run, mods):
                 dv = {"a": a, "b": a * 2}
                 if extra:
                     dv["c"] = xr.DataArray(np.zeros(3), dims=("t",), coords={"t": ["u", "v", "w"]})
-                ds = xr.Dataset(dv, attrs={k: "x" for k in dsattrs})
+                ds = xr.Dataset(dv, attrs={k: ("spatial_ref" if k == "grid_mapping" else "stale") for k in dsattrs})
                 out = oxr.xr_reproject(ds, dst)
                 box.append(out)
                 return ds_s(out)
